@@ -32,12 +32,20 @@ def chunks {α} (n : Nat) (xs : List α) : List (List α) :=
     | fuel + 1 => if xs.isEmpty then acc.reverse else go fuel (xs.drop n) (xs.take n :: acc)
   go (xs.length + 1) xs []
 
-def parseLayout (s : String) : Layout :=
-  (s.splitOn ";").map fun ps =>
+def isNat (s : String) : Bool := !s.isEmpty && s.all Char.isDigit
+
+/-- `none` for a malformed layout token (the request is then answered with `bad-op`) -/
+def parseLayout? (s : String) : Option Layout :=
+  (s.splitOn ";").mapM fun ps =>
     match ps.splitOn ":" with
-    | [f, ns] => { fixed := f == "1",
-                   names := (pList pN ns).map (fun v => if v == 0 then none else some (v - 1)) }
-    | _ => { fixed := true, names := [] }
+    | [f, ns] =>
+        if (f == "0" || f == "1") && (ns.splitOn ",").all isNat then
+          some { fixed := f == "1",
+                 names := (pList pN ns).map (fun v => if v == 0 then none else some (v - 1)) }
+        else none
+    | _ => none
+
+def parseLayout (s : String) : Layout := (parseLayout? s).getD []
 
 def fInts (xs : List Int) : String := fListD (fun (i : Int) => toString i) xs
 
@@ -98,13 +106,20 @@ def answer (line : String) : String :=
   | "stack" :: opa :: ns :: nFit :: nsIdx :: k :: gp :: w :: _j :: rest =>
       let K := pN k
       let gpT : List (List Int) := chunks 2 (pList pI gp)
-      let r := stacked (pF opa) (pF ns) (pN nFit) (pN nsIdx) gpT (pList pF w) (parseDatasets K rest)
-      s!"{fF r.value} {fListD fF r.grads} {fF r.nsGrad2}"
+      match stackedChecked (pF opa) (pF ns) (pN nFit) (pN nsIdx) gpT (pList pF w) (parseDatasets K rest) with
+      | .ok r => s!"{fF r.value} {fListD fF r.grads} {fF r.nsGrad2}"
+      | .error e => s!"ERR:{e}"
   | _ => "bad-op"
+
+def wellFormedRequest (line : String) : Bool :=
+  match tokens line with
+  | "layout" :: l :: _ => (parseLayout? l).isSome
+  | "lval" :: l :: _ => (parseLayout? l).isSome
+  | _ => true
 
 def stepS (m : GradState.Multi Float) (line : String) : GradState.Multi Float × String :=
   match hstep m line with
   | some r => r
-  | none => (m, answer line)
+  | none => (m, if wellFormedRequest line then answer line else "bad-op")
 
 def main : IO Unit := do loopS (← IO.getStdin) (GradState.init 0) stepS
